@@ -2,7 +2,72 @@
 
 package datastore
 
-import "github.com/janelia-flyem/dvid/dvid"
+import (
+	"sort"
+
+	"github.com/janelia-flyem/dvid/dvid"
+)
+
+// verifManagerReady reports that a repo manager has become the package's manager: either a
+// fresh one on an empty metadata store ("init") or one rebuilt from the store ("load",
+// followed by one "loadnode" per version node and one "loaddata" per data instance, so that
+// what was persisted can be compared with what the previous manager had acknowledged).
+func (m *repoManager) verifManagerReady(fresh bool) {
+	if dvid.VerifEventFunc == nil {
+		return
+	}
+	if fresh {
+		dvid.VerifEvent("init", "versionID", m.versionID, "instanceID", m.instanceID, "repoID", m.repoID, "gen", m.instanceIDGen)
+		return
+	}
+	m.idMutex.RLock()
+	defer m.idMutex.RUnlock()
+	dvid.VerifEvent("load", "versionID", m.versionID, "instanceID", m.instanceID, "repoID", m.repoID, "gen", m.instanceIDGen,
+		"nodes", len(m.versionToUUID), "repos", len(m.repoToUUID))
+	var rids []int
+	for id := range m.repoToUUID {
+		rids = append(rids, int(id))
+	}
+	sort.Ints(rids)
+	for _, id := range rids {
+		r, found := m.repos[m.repoToUUID[dvid.RepoID(id)]]
+		if !found {
+			dvid.VerifEvent("loadrepo", "repo", id, "uuid", m.repoToUUID[dvid.RepoID(id)], "missing", true)
+			continue
+		}
+		var vs []int
+		for v := range r.dag.nodes {
+			vs = append(vs, int(v))
+		}
+		sort.Ints(vs)
+		uuidOf := func(l []dvid.VersionID) []dvid.UUID {
+			out := make([]dvid.UUID, len(l))
+			for i, v := range l {
+				if n, ok := r.dag.nodes[v]; ok {
+					out[i] = n.uuid
+				}
+			}
+			return out
+		}
+		for _, v := range vs {
+			node := r.dag.nodes[dvid.VersionID(v)]
+			mapped, inMap := m.uuidToVersion[node.uuid]
+			dvid.VerifEvent("loadnode", "uuid", node.uuid, "version", node.version, "root", r.uuid, "branch", node.branch,
+				"locked", node.locked, "parents", uuidOf(node.parents), "children", uuidOf(node.children),
+				"mapped", inMap && mapped == node.version && m.repos[node.uuid] == r)
+		}
+		var names []string
+		for name := range r.data {
+			names = append(names, string(name))
+		}
+		sort.Strings(names)
+		for _, name := range names {
+			d := r.data[dvid.InstanceName(name)]
+			dvid.VerifEvent("loaddata", "name", name, "iid", d.InstanceID(), "root", r.uuid, "deleted", d.IsDeleted())
+		}
+	}
+	dvid.VerifEvent("loaded", "nodes", len(m.versionToUUID))
+}
 
 // VerifSyncPending reports, under the repo lock, whether sync events are queued for the data
 // instance.  Data.SyncPending reads the subscription table without that lock (it is meant for
